@@ -1128,4 +1128,81 @@ theorem paid_accept_charge (f : Fixes) (s s' : HostState) (r : PaidReq) (hrpc : 
   rcases hrpc with hr | hr <;> simp only [hr] at h <;> split at h <;> (try simp at h) <;>
     (unfold spendCost afterContractPayment at h; simp [hb] at h; split at h <;> simp at h; subst h; simp; assumption)
 
+/-! ## 9. contract renewal and formation: handleRPCRenew, rpcRenewAndClearContract, rpcFormContract -/
+
+/-- **slices_in_bounds (RHP3 RPCRenewContract).**  For every transaction-set size, every number of file
+contracts / revisions in its last transaction, every renter key and signature length and every output
+count of the clearing revision and of the renewed contract, each index and each slice→array conversion
+of `handleRPCRenew` (and of the validators it calls) sits behind a guard that makes it legal. -/
+theorem slices_in_bounds_renew3 (r : RenewReq) : Safe (renew3Steps r) := by
+  simp only [renew3Steps, clearingSteps, contractSteps, revSigSteps, Safe, List.cons_append, List.nil_append,
+    decide_eq_true_eq, Bool.and_eq_true, ne_eq]
+  safe_auto
+
+/-- **slices_in_bounds (RHP2 RPCRenewAndClearContract).** -/
+theorem slices_in_bounds_renew2 (r : RenewReq) : Safe (renew2Steps r) := by
+  simp only [renew2Steps, clearingSteps, contractSteps, Safe, List.cons_append, List.nil_append,
+    decide_eq_true_eq, Bool.and_eq_true, ne_eq]
+  safe_auto
+
+/-- **slices_in_bounds (RHP2 RPCFormContract, with the key-length check of 1ee75c4).** -/
+theorem slices_in_bounds_form2 (f : Fixes) (hf : f.v2FormKeyLen = true) (r : RenewReq) : Safe (form2Steps f r) := by
+  simp only [form2Steps, contractSteps, revSigSteps, hf, if_true, Safe, List.cons_append, List.nil_append,
+    decide_eq_true_eq, Bool.and_eq_true, ne_eq]
+  safe_auto
+
+/-- **no_panic (renewal and formation handlers).** -/
+theorem renew_no_panic (f : Fixes) (hf : f.v2FormKeyLen = true) (k : RenewKind) (s : HostState) (r : RenewReq) (site : Site) :
+    (renew f k s r).1 ≠ .panic site := by
+  have hsafe : Safe (renewSteps f k r) := by
+    cases k
+    · exact slices_in_bounds_renew3 r
+    · exact slices_in_bounds_renew2 r
+    · exact slices_in_bounds_form2 f hf r
+  unfold renew
+  split
+  · rename_i s' heq; exact absurd heq (run_no_panic _ hsafe _ s')
+  · simp
+  · simp
+
+/-- **reject_noop (renewal and formation).**  A rejected renewal or formation leaves revision, sector
+roots and balance of the contract exactly as they were. -/
+theorem renew_reject_noop (f : Fixes) (k : RenewKind) (s s' : HostState) (r : RenewReq)
+    (h : renew f k s r = (.reject, s')) : s' = s := by
+  unfold renew at h
+  split at h <;> simp at h
+  exact h.symm
+
+/-- an accepted request passed every guard: in particular the renter key is an ed25519 key of exactly 32 bytes
+and the revision signature has exactly 64 bytes (the conversions cannot be reached otherwise) -/
+theorem renew3_accept_key (f : Fixes) (s s' : HostState) (r : RenewReq) (h : renew f .renew3 s r = (.accept, s')) :
+    r.algOk = true ∧ r.keyLen = 32 ∧ r.txns ≠ 0 ∧ r.fcs = 1 ∧ r.revs = 1 := by
+  unfold renew at h
+  split at h <;> simp at h
+  rename_i a heq
+  simp only [renewSteps, renew3Steps, List.cons_append, run] at heq
+  by_cases h1 : r.readable = true <;> simp [h1] at heq
+  by_cases h2 : r.txns = 0 <;> simp [h2] at heq
+  by_cases h3 : r.fcs = 1 <;> simp [h3] at heq
+  by_cases h4 : r.revs = 1 <;> simp [h4] at heq
+  by_cases h5 : r.algOk = true ∧ r.keyLen = 32
+  · exact ⟨h5.1, h5.2, h2, h3, h4⟩
+  · have : ¬ (r.algOk = true ∧ r.keyLen = 32) := h5
+    rw [if_neg this] at heq
+    simp at heq
+
+/-- what the guard is for: with `&&` in place of `||` in handleRPCRenew's key check (a 5-byte ed25519 key
+passes) the conversion `*(*types.PublicKey)(req.RenterKey.Key)` is reached and panics -/
+example : run { budget := 0 }
+    [ Step.guard (true || decide ((5 : Nat) = 32)), .need (decide (32 ≤ (5 : Nat))) .handleRPCRenew ] = .panic .handleRPCRenew := by decide
+
+example : (renew Fixes.all .renew3 { rev := 6, roots := [1, 2, 3], balance := 10 } {}).1 = .accept := by decide
+example : renew Fixes.all .renew3 { rev := 6, roots := [1, 2, 3], balance := 10 } { keyLen := 5 }
+    = (.reject, { rev := 6, roots := [1, 2, 3], balance := 10 }) := by decide
+example : (renew Fixes.all .renew2 { rev := 6, roots := [1, 2, 3], balance := 10 } { clrValid := 3 }).1 = .reject := by decide
+example : (renew Fixes.all .renew3 { rev := 6, roots := [1, 2, 3], balance := 10 } { txns := 0 }).1 = .reject := by decide
+example : (renew Fixes.all .form2 { rev := 6, roots := [1, 2, 3], balance := 10 } { fcMissed := 2 }).1 = .reject := by decide
+/-- before 1ee75c4 `rpcFormContract` converted a short key -/
+example : (renew Fixes.none .form2 { rev := 6, roots := [1, 2, 3], balance := 10 } { keyLen := 5 }).1 = .panic .rpcFormContract := by decide
+
 end Hostd.Mdm
